@@ -1,7 +1,7 @@
 (* Correspondence checker for the `pubsub` driver: sequential histories on the real memEventBus /
    EventSystem against the sequential runs of the transition systems (Model/PubSub.v, Model/FilterSys.v),
    and the deterministic replay of the uninstall-during-send schedule. *)
-From Evm Require Import Conc PubSub FilterSys Total TotalProofs CorrBase.
+From Evm Require Import Conc PubSub FilterSys FilterApi Total TotalProofs CorrBase.
 Local Open Scope nat_scope.
 
 Fixpoint ins (x : nat) (l : list nat) : list nat :=
@@ -50,12 +50,22 @@ Definition replay_model : bool * bool :=
   let s6 := fs_quiesce true s5 in
   (completed, match err s6 with Some _ => true | None => false end).
 
+(* PublicFilterAPI histories: result of the call, installed filters (as a set), CometBFT Subscribe calls per event type *)
+Definition asnap_eqb (m o : asnap) : bool :=
+  Nat.eqb (as_res m) (as_res o) && listn_eqb (sortn (as_filters m)) (sortn (as_filters o))
+  && listn_eqb (as_wssub m) (as_wssub o) && Bool.eqb (as_crashed m) (as_crashed o).
+
 Inductive pcase :=
 | PBus (ops : list op) (obs : list snap)
 | PFs (ops : list fop) (obs : list (list fobs * bool))
 | PReplay (completed_during_pause crashed : bool)
 (* a Tx event for a decodable transaction delivered to an installed pending-transaction filter *)
-| PPending (has_msgs valid_basic : bool) (survived : bool).
+| PPending (has_msgs valid_basic : bool) (survived : bool)
+(* a sequential history on the real PublicFilterAPI (filter cap, ops, per-op observations) *)
+| PApi (cap : nat) (ops : list aop) (obs : list asnap)
+(* the concurrent stress of the real PublicFilterAPI in a child process: did the process survive
+   (Proofs/FilterApiProofs.v filterapi_safe: no interleaving of the modelled code crashes) *)
+| PApiStress (survived : bool).
 
 Definition ps_ok (c : pcase) : bool :=
   match c with
@@ -63,6 +73,8 @@ Definition ps_ok (c : pcase) : bool :=
   | PFs ops obs => list_eqb fsnap_eqb (frun true fs_init ops) obs
   | PReplay a b => Bool.eqb (fst replay_model) a && Bool.eqb (snd replay_model) b
   | PPending hm vb survived => Bool.eqb survived (negb (is_crash (rpc_pending true hm true vb)))
+  | PApi cap ops obs => list_eqb asnap_eqb (arun false (fa_init cap) [] ops) obs
+  | PApiStress survived => survived
   end.
 
 Definition ps_mismatches (off : nat) (l : list pcase) : list nat := mism ps_ok off l.
